@@ -69,7 +69,8 @@ def gen_case(r, k, same=None, long_=False):
     mn = r.randint(0, full - 1) if full > 1 else 0
     c = {"id": k, "vars": vars_, "same": same, "full": full, "min": mn,
          "apply": r.random() < 0.85, "update": r.random() < 0.92,
-         "cap": r.random() < 0.3, "maxf": [r.choice([0.0, 0.5, 1.0, 2.0, 8.0]) for _ in range(nd)],
+         "cap": r.random() < (0.6 if (nd == 1 and vars_[0]["periodic"]) else 0.3),
+         "maxf": [r.choice([0.0, 0.5, 1.0, 2.0, 8.0]) for _ in range(nd)],
          "szd": same and r.random() < 0.3, "hideJ": r.random() < 0.4,
          "T": r.choice([0.0, 250.0, 1000.0, 4000.0]),
          "abf_first": r.random() < 0.5}
@@ -735,7 +736,19 @@ def oracle(c, impl_steps, state=None, files=None, loads=None):
         exp = expected_abf_force(c, st, f["cnt"], f["sum"])
         if not all(close(a, b) for a, b in zip(exp, f["cf"])):
             evs = [(u, c["steps"][u]["event"]["kind"], c["steps"][u]["event"]["fmt"]) for u in range(t + 1) if c["steps"][u].get("event")]
-            if per1:
+            over = c["cap"] and any(abs(Fr(x)) > Fr(m) and not close(abs(x), m) for x, m in zip(f["cf"], c["maxf"]))
+            # the same formula without the cap: is the cap what is wrong?
+            c_nocap = dict(c)
+            c_nocap["cap"] = False
+            unc = expected_abf_force(c_nocap, st, f["cnt"], f["sum"])
+            cap_active = c["cap"] and any(abs(u_) > Fr(m) for u_, m in zip(unc, c["maxf"]))
+            if over or cap_active:
+                bad.append(("force:cap", "step %d: maxForce %s: the ABF force is %s%s; ramp(count)*mean%s of the arrays at this step (counts %s, sums %s) is %s before the cap, "
+                            "so the capped force must be %s (the cap is the last operation: it applies to the zero-mean force)"
+                            % (t, c["maxf"], f["cf"], " (LARGER in magnitude than maxForce)" if over else "",
+                               " minus the mean over all bins of the ramped means" if per1 else "", f["cnt"], f["sum"],
+                               [float(x) for x in unc], [float(x) for x in exp])))
+            elif per1:
                 bad.append(("force:periodic-zero-mean", "step %d: the ABF force on the periodic variable is %s, but the ramped mean of the current bin minus the mean over "
                             "all bins of the ramped means, computed from the samples/gradients arrays at this step (counts %s, sums %s), is %s%s"
                             % (t, f["cf"], f["cnt"], f["sum"], [float(x) for x in exp],
@@ -1110,6 +1123,23 @@ def judge_reload_stale(c, steps):
     return None
 
 
+def witness_cap_order():
+    """W13: 1-D periodic ABF, 2 bins, minSamples 0, fullSamples 1, same-step forces, maxForce 0.5: samples 4 in bin 0 and 2 in bin 1
+    (estimates -4 and -2, grid mean -3): zero-mean forces -1 and +1, capped to -0.5 and +0.5 (probed at repeated steps)."""
+    v = _v1(periodic=True, P=2.0, c=1.0)
+    return _c1("W13", v, [(0.5, 0.0, False), (0.5, 4.0, False), (1.5, 2.0, False), (0.5, 0.0, True), (1.5, 0.0, True)],
+               same=True, apply=True, full=1, min=0, cap=True, maxf=[0.5])
+
+
+def judge_cap_order(c, steps):
+    f0, f1 = steps[3]["cf"][0], steps[4]["cf"][0]
+    if f0 != -0.5 or f1 != 0.5:
+        return ("1-D periodic ABF with maxForce 0.5, estimates -4 (bin 0) and -2 (bin 1), mean over the bins -3: the zero-mean forces -1 and +1 must be capped to "
+                "-0.5 and +0.5; the implementation applies %s in bin 0 and %s in bin 1%s" % (f0, f1,
+                " (larger than maxForce: the cap was applied before the zero-mean term)" if max(abs(f0), abs(f1)) > 0.5 else ""))
+    return None
+
+
 WITNESSES = ((witness_zero_total, "sample:subtractAppliedForce-zero-total-force", judge_zero_total),
              (witness_zero_total_abf, "sample:subtractAppliedForce-zero-total-force", judge_zero_total_abf),
              (witness_value_zero, "sample:force-dropped-at-value-zero", judge_value_zero),
@@ -1122,6 +1152,7 @@ WITNESSES = ((witness_zero_total, "sample:subtractAppliedForce-zero-total-force"
              (witness_hidej_switched, "sample:hideJacobian-applyBias-switched", judge_hidej_switched),
              (witness_input, "sample:inputPrefix-data", judge_input),
              (witness_restart_zero_mean, "force:periodic-zero-mean", judge_restart_zero_mean),
+             (witness_cap_order, "force:cap", judge_cap_order),
              (witness_reload_stale, "sample:reload-stale-total-force", judge_reload_stale),
              (witness_late, "sample:bias-defined-at-run-time-bin0", judge_late),
              (witness_late_sub, "sample:bias-defined-at-run-time-bin0", judge_late))
